@@ -59,6 +59,9 @@ var queries = []string{
 	`mutation { pickUser(id: 1) { id name email age device { temp } } }`,
 	`mutation { pickUser(id: 2) { boss { email secret } devices { tags owner { age } } } }`,
 	`mutation { pickUser(id: 99) { email } }`,
+	// fragments in a mutation: on a payload type only the mutation returns, and on the Mutation root itself
+	`mutation { pickAndReport(id: 1) { ok ... on PickReport { picked } ...PR } } fragment PR on PickReport { ok }`,
+	`mutation { ... on Mutation { pickUser(id: 2) { id name } } }`,
 }
 
 // one named fragment spread at two sites, with several duplicated aliases at one of them
